@@ -217,6 +217,10 @@ def C02(ctx):
     # sanitized runs get 64 MiB); a crash here is a stack (or other) fault the sanitized run could not attribute to the stack limit
     ctx.run("plain", "pktmon", "c02f", _n(ctx.tier, 3200, 60000), extra_src=SPEC, stack_mb=8)
     ctx.run("plain", "pktmon", "c02", _n(ctx.tier, 1600, 30000), extra_src=SPEC, stack_mb=8)
+    if ctx.tier == "thorough":
+        # coverage-guided stratum (harness/fuzzmon.c): libFuzzer mutates packets (headers, codebooks, audio) and the call script; bounded by unit count
+        ctx.rule += " | thorough only: libFuzzer (clang ASan+UBSan) over length-prefixed packet lists, packet-level target, 16 independent jobs x 40000 units from a generated seed corpus"
+        ctx.fuzz("pkt", jobs=16, runs=40000)
     return ctx.finish(min_evals=200000, min_buckets=100)
 
 
@@ -241,6 +245,9 @@ def C13(ctx):
                 "ov_clear; bucket = scenario class")
     ctx.assumptions = TRUST_COMMON + ["live-byte ledger = __sanitizer_get_current_allocated_bytes() of the ASan runtime (libogg is linked statically, so its allocations are counted too)"]
     ctx.run("san", "pktmon", "c13", _n(ctx.tier, 3600, 90000), extra_src=SPEC)
+    if ctx.tier == "thorough":
+        ctx.rule += " | thorough only: libFuzzer with LeakSanitizer after every unit over both targets of harness/fuzzmon.c (only leak reports gate here; other reports belong to C02/C03)"
+        ctx.fuzz("both", jobs=16, runs=25000, leaks=True, only_leaks=True)
     return ctx.finish(min_evals=3000, min_buckets=100)
 
 
@@ -259,6 +266,10 @@ def C03(ctx):
     ctx.run("san", "vffault", "c03", _n(ctx.tier, 5760, 120000), extra_src=SPEC, stack_mb=64, env_extra={"VH_CPU": "90"})
     # the same cases on the uninstrumented build under the default 8 MiB stack (lapping buffers and residue scratch live on the stack)
     ctx.run("plain", "vffault", "c03", _n(ctx.tier, 2880, 40000), extra_src=SPEC, stack_mb=8, env_extra={"VH_CPU": "60"})
+    if ctx.tier == "thorough":
+        ctx.rule += (" | thorough only: libFuzzer (clang ASan+UBSan) over length-prefixed packet lists that the harness frames into checksummed pages (1-2 links, 4 paging policies, "
+                     "seekable or not) followed by a mutated script of reads, seeks of every kind, lapped seeks, half-rate toggles and queries; 16 jobs x 30000 units")
+        ctx.fuzz("vf", jobs=16, runs=30000)
     return ctx.finish(min_evals=100000, min_buckets=200)
 
 
